@@ -11,6 +11,7 @@ INVARIANT IonSizeDamps
 INVARIANT ZeroAtZeroStrength
 INVARIANT ChargeEntersSquared
 INVARIANT NeutralSpecies
+INVARIANT IonSizeMatters
 INVARIANT TypeOK
 INVARIANT Emit
 CHECK_DEADLOCK FALSE
